@@ -24,7 +24,10 @@ MinLen(X) == CHOOSE m \in {Len(X[i][j]) : i \in DOMAIN X, j \in DOMAIN X[1]} :
 MapCells(X, F(_)) == [i \in DOMAIN X |-> [j \in DOMAIN X[i] |-> F(X[i][j])]]
 
 \* --- padding to the requested (0 = longest) length with the fill value ------
+\* (half = 1: the fill value is fill + 1/2 -- a fractional fill value also for panels of integer cells)
 PadCell(s, L, fill) == [k \in 1..L |-> IF k <= Len(s) THEN R(s[k]) ELSE R(fill)]
+PadCellH(s, L, fill, half) ==
+    [k \in 1..L |-> IF k <= Len(s) THEN R(s[k]) ELSE IF half = 1 THEN P2(Add(Q(fill), Frac(1, 2))) ELSE R(fill)]
 \* Lengths learned in fit: p.fit = 0 means the transformer was fitted on the very panel it transforms; otherwise it was
 \* fitted on another panel whose longest (padding) / shortest (truncation) series has length p.fit, and that
 \* fitted length -- not the transformed panel's -- is what a missing pad_length / lower bound stands for
@@ -98,10 +101,11 @@ ImputeAt(s, i, method, const) ==
 ImputeSeries(s, method, const) ==
     [i \in DOMAIN s |-> P2(IF s[i] # MISS THEN Q(s[i]) ELSE ImputeAt(s, i, method, const))]
 \* --- autocorrelation coefficients 0..k: ratio of sums around the overall mean -----------
-AcfSeries(s, k) ==
+\* (adj = 1, option adjusted: the autocovariance at lag h is divided by n - h instead of n)
+AcfSeries(s, k, adj) ==
     LET n == Len(s) m == MeanOf(s)
         c(h) == SumN([t \in 1..(n - h) |-> Mul(Sub(Q(s[t]), m), Sub(Q(s[t + h]), m))])
-    IN [h \in 1..(k + 1) |-> P2(Div(c(h - 1), c(0)))]
+    IN [h \in 1..(k + 1) |-> P2(IF adj = 1 THEN Div(Mul(c(h - 1), Q(n)), Mul(c(0), Q(n - h + 1))) ELSE Div(c(h - 1), c(0)))]
 \* --- min-max scaling of a single series (wrapped tabular transformer) -----------------
 MinMaxSeries(s) ==
     LET lo == CHOOSE v \in {s[i] : i \in DOMAIN s} : \A i \in DOMAIN s : v <= s[i]
@@ -110,7 +114,7 @@ MinMaxSeries(s) ==
 
 Out(c) ==
     LET X == c.X p == c.p IN
-    CASE c.op = "pad" -> MapCells(X, LAMBDA s : PadCell(s, IF p.L = 0 THEN FitMax(X, p) ELSE p.L, p.fill))
+    CASE c.op = "pad" -> MapCells(X, LAMBDA s : PadCellH(s, IF p.L = 0 THEN FitMax(X, p) ELSE p.L, p.fill, p.half))
       [] c.op = "truncate" -> MapCells(X, LAMBDA s : IF p.hi = 0 THEN TruncCell(s, 0, IF p.lo = 0 THEN FitMin(X, p) ELSE p.lo)
                                                      ELSE TruncCell(s, p.lo, p.hi))
       [] c.op = "interpolate" -> MapCells(X, LAMBDA s : InterpCell(s, p.L))
@@ -130,7 +134,7 @@ Out(c) ==
                  \o [f \in DOMAIN p.iv |-> P2(SlopeOf(Slice(X[i][1], p.iv[f][1], p.iv[f][2])))] >>]
       [] c.op = "row_mean" -> MapCells(X, LAMBDA s : << P2(MeanOf(s)) >>)
       [] c.op = "impute" -> << << ImputeSeries(X[1][1], p.method, p.const) >> >>
-      [] c.op = "acf" -> << << AcfSeries(X[1][1], p.k) >> >>
+      [] c.op = "acf" -> << << AcfSeries(X[1][1], p.k, p.adj) >> >>
       [] c.op = "minmax" -> << << MinMaxSeries(X[1][1]) >> >>
 
 \* outputs keep one row per instance in input order; length-changing transformers give exactly the requested length
